@@ -19,6 +19,7 @@ import (
 
 	"github.com/256dpi/lungo"
 	"github.com/256dpi/lungo/bsonkit"
+	"github.com/256dpi/lungo/mongokit"
 
 	"verifharness/internal/run"
 	"verifharness/internal/vj"
@@ -947,7 +948,46 @@ func distinctEqual(a, b string) bool {
 
 // histState is shared by the cases of one history: after an unmodelled step or the first
 // disagreement the model state is no longer comparable and later cases are accepted.
-type histState struct{ poisoned bool }
+// histState carries what the comparison of one history needs. errClassLoose is set for histories that create an index
+// whose partial filter cannot be evaluated (unknown operator): mongokit.Collection visits its indexes in Go map order, so
+// WHICH rejection is reported (duplicate key vs. filter error) for a document that two indexes reject for different
+// reasons is not deterministic in the implementation; both are rejections, and only the class of the error differs.
+type histState struct {
+	poisoned      bool
+	errClassLoose bool
+}
+
+// hasUnknownOperator reports whether a filter document uses an operator the matcher does not know.
+func hasUnknownOperator(v interface{}) bool {
+	switch x := v.(type) {
+	case bson.D:
+		for _, e := range x {
+			if strings.HasPrefix(e.Key, "$") && mongokit.TopLevelQueryOperators[e.Key] == nil && mongokit.ExpressionQueryOperators[e.Key] == nil {
+				return true
+			}
+			if hasUnknownOperator(e.Value) {
+				return true
+			}
+		}
+	case bson.A:
+		for _, e := range x {
+			if hasUnknownOperator(e) {
+				return true
+			}
+		}
+	}
+	return false
+}
+
+// looseErrClass decides errClassLoose for a history.
+func looseErrClass(steps []apiStep) bool {
+	for _, st := range steps {
+		if st.call != nil && st.call.Partial != nil && hasUnknownOperator(st.call.Partial) {
+			return true
+		}
+	}
+	return false
+}
 
 func (h *histState) accept(impl string, kind string) func(string) bool {
 	return func(m string) bool {
@@ -966,6 +1006,10 @@ func (h *histState) accept(impl string, kind string) func(string) bool {
 			ok = strings.HasPrefix(m, `{"panic"`)
 		default:
 			ok = jsonEqual(impl, m) || (kind == "distinct" && distinctEqual(impl, m))
+			if !ok && h.errClassLoose {
+				isErr := func(s string) bool { return s == `{"err":"err"}` || s == `{"err":"dup"}` }
+				ok = isErr(impl) && isErr(m)
+			}
 		}
 		if !ok {
 			h.poisoned = true
